@@ -63,7 +63,7 @@ func (s *Schema) typ(name string) *SType {
 func isRoot(n string) bool { return n == "Query" || n == "Mutation" }
 
 var fieldWords = []string{"todos", "user", "items", "count", "owner", "title", "fooBar", "created_at", "url", "itemId", "next", "total", "meta", "tags", "parent", "score"}
-var typeWords = []string{"Todo", "User", "Item", "Profile", "Tag", "Order", "Node2", "Account"}
+var typeWords = []string{"Todo", "User", "Item", "Profile", "Tag", "Order", "Node2", "Account", "gadget"}
 
 func (s *Schema) freshField(r *rng.R, t *SType) string {
 	for {
@@ -356,7 +356,7 @@ func replaceBase(ref, old, nw string) string {
 }
 
 // write renders the schema files and gqlgen.yml into dir (stale *.graphqls are removed).
-func (s *Schema) write(dir, pkg, layout string) error {
+func (s *Schema) write(dir, pkg, layout string, omitComment bool) error {
 	old, _ := filepath.Glob(filepath.Join(dir, "*.graphqls"))
 	for _, o := range old {
 		os.Remove(o)
@@ -414,6 +414,9 @@ func (s *Schema) write(dir, pkg, layout string) error {
 		fmt.Fprintf(&y, "  layout: follow-schema\n  dir: .\n  package: %s\n", pkg)
 	} else {
 		fmt.Fprintf(&y, "  layout: single-file\n  filename: resolver.go\n  package: %s\n", pkg)
+	}
+	if omitComment {
+		y.WriteString("  omit_template_comment: true\n")
 	}
 	y.WriteString("skip_mod_tidy: true\nmodels:\n")
 	any := false
